@@ -9,7 +9,8 @@ any number of client handles, weak references and threads.  All interleavings = 
 `windowed = true` is the code as pinned: `ClientPromise.Fulfill` marks `p` resolved and zeroes its
 reference count under `p.mu`, releases `p.mu`, and only then locks the target hook to add the
 references — in between, the references are counted nowhere.  `windowed = false` hands them over
-while `p.mu` is still held (the repaired code).
+while `p.mu` is still held (the repaired code).  The same flag selects the pinned / repaired treatment of a
+promise fulfilled with (a client that leads back to) itself.
 -/
 namespace Capnp.Model.Cap
 
@@ -42,6 +43,7 @@ inductive Act
   | passDone (onPHook : Bool)  -- a waiter gets past `<-h.done` and calls `h.Shutdown()`
   | fulfill (nil : Bool)       -- `ClientPromise.Fulfill`, first critical section (under `p.mu`)
   | hand                       -- Fulfill's second critical section (under the target's mutex)
+  | fulfillSelf                -- `p.Fulfill(c)` where `c` is a live handle on `p` itself (directly, or through a chain of resolved promises)
 deriving Repr, DecidableEq
 
 def init : St :=
@@ -61,6 +63,21 @@ deriving DecidableEq
 
 def St.via (s : St) (viaP : Bool) : Target :=
   if viaP then (if s.pResolved then (if s.toNil then .none else .t) else .p) else .t
+
+/-- `ClientPromise.Fulfill`, first critical section (under `p.mu`) -/
+def fulfillStep (windowed : Bool) (s : St) (nil : Bool) : Option St :=
+  -- requires an unresolved promise; fulfilling with a client needs that client to be live (a handle on t)
+  if s.pResolved then none else
+  if !nil ∧ s.onT = 0 then none else
+  let n := s.p.refs
+  let p0 : Hook := { s.p with refs := 0 }
+  if n = 0 then some { s with p := p0, pResolved := true, toNil := nil }
+  else
+    let p1 : Hook := if s.p.calls = 0 then { p0 with done := true, waiting := p0.waiting + 1 } else { p0 with waiting := p0.waiting + 1 }
+    let s1 := { s with p := p1, pResolved := true, toNil := nil, bad := s.bad || (decide (s.p.calls = 0) && s.p.done) }
+    if nil then some s1
+    else if windowed then some { s1 with parked := n.toNat }
+    else some { s1 with t := { s1.t with refs := s1.t.refs + n } }
 
 def step (windowed : Bool) (s : St) : Act → Option St
   | .addRef viaP =>
@@ -107,22 +124,21 @@ def step (windowed : Bool) (s : St) : Act → Option St
     if h.waiting = 0 ∨ h.done = false then none else
     let h' := { h with waiting := h.waiting - 1, shut := h.shut + 1 }
     if onPHook then some { s with p := h' } else some { s with t := h' }
-  | .fulfill nil =>
-    -- requires an unresolved promise; fulfilling with a client needs that client to be live (a handle on t)
-    if s.pResolved then none else
-    if !nil ∧ s.onT = 0 then none else
-    let n := s.p.refs
-    let p0 : Hook := { s.p with refs := 0 }
-    if n = 0 then some { s with p := p0, pResolved := true, toNil := nil }
-    else
-      let p1 : Hook := if s.p.calls = 0 then { p0 with done := true, waiting := p0.waiting + 1 } else { p0 with waiting := p0.waiting + 1 }
-      let s1 := { s with p := p1, pResolved := true, toNil := nil, bad := s.bad || (decide (s.p.calls = 0) && s.p.done) }
-      if nil then some s1
-      else if windowed then some { s1 with parked := n.toNat }
-      else some { s1 with t := { s1.t with refs := s1.t.refs + n } }
+  | .fulfill nil => fulfillStep windowed s nil
   | .hand =>
     if s.parked = 0 then none else
     some { s with t := { s.t with refs := s.t.refs + s.parked }, parked := 0 }
+  | .fulfillSelf =>
+    if s.pResolved ∨ s.onP = 0 then none else
+    if windowed then
+      -- as pinned: `resolvedHook = p`, the hook keeps counting its references (handles still reach `p`), yet
+      -- `done` is closed and the fulfiller goes on to `Shutdown`
+      let p1 : Hook := if s.p.calls = 0 then { s.p with done := true, waiting := s.p.waiting + 1 } else { s.p with waiting := s.p.waiting + 1 }
+      some { s with p := p1, bad := s.bad || (decide (s.p.calls = 0) && s.p.done) }
+    else
+      -- repaired: the cycle is detected and the promise resolves to an error client, a capability outside this
+      -- model: from `p`'s and `t`'s point of view the same as resolving to nothing
+      fulfillStep false s true
 
 def run (windowed : Bool) (s : St) : List Act → Option St
   | [] => some s
